@@ -40,17 +40,59 @@ def u_spot(U):
     import json, os, subprocess, sys
     root = os.path.dirname(os.path.dirname(os.path.abspath(__file__)))
     env = dict(os.environ, PYTHONPATH=os.pathsep.join([root, os.path.join(root, '.deps')]))
-    out = subprocess.run([sys.executable, '-B', os.path.join(root, 'lemmas', 'spotcheck.py'), '--json'], capture_output=True, text=True, env=env,
-                         timeout=600)
-    try:
-        res = json.loads(out.stdout.strip().splitlines()[-1])
-    except Exception:
-        U.direct('cover', 'axioms-hold-in-the-standard-model', 'vacuous', 'spot check did not run: ' + (out.stderr or out.stdout)[-400:],
+    # The spot check is a function of the theory / model sources and of NumPy alone (not of /repo).  All twenty checks contain it, and
+    # twenty checks started at the same time would run twenty process pools: they serialise on a lock file, and a result computed
+    # from byte-identical sources less than 15 minutes ago is reused (said so in the evidence).  The cache lives in the untracked
+    # directory .scratch; a fresh checkout has none.
+    import fcntl, glob, hashlib, time
+    import numpy
+    h = hashlib.sha256(numpy.__version__.encode())
+    for f in sorted(glob.glob(os.path.join(root, 'ttvc', '*.py')) + glob.glob(os.path.join(root, 'lemmas', 'spotcheck*.py'))):
+        h.update(open(f, 'rb').read())
+    key = h.hexdigest()[:20]
+    scratch = os.path.join(root, '.scratch')
+    os.makedirs(scratch, exist_ok=True)
+    cache = os.path.join(scratch, f'spotcheck_{key}.json')
+    reused, res, err = '', None, ''
+    with open(os.path.join(scratch, 'spotcheck.lock'), 'w') as lock:
+        t_wait = time.time()
+        while True:
+            try:
+                fcntl.flock(lock, fcntl.LOCK_EX | fcntl.LOCK_NB)
+                break
+            except OSError:
+                if time.time() - t_wait > 150:
+                    break                                  # do not wait for ever: compute without the lock
+                time.sleep(0.5)
+        try:
+            if os.path.exists(cache) and time.time() - os.path.getmtime(cache) < 900:
+                try:
+                    res = json.load(open(cache))
+                    reused = f' (result of a run on byte-identical theory sources {int(time.time() - os.path.getmtime(cache))} s ago reused, key {key})'
+                except Exception:
+                    res = None
+            if res is None:
+                out = subprocess.run([sys.executable, '-B', os.path.join(root, 'lemmas', 'spotcheck.py'), '--json'], capture_output=True,
+                                     text=True, env=env, timeout=600)
+                try:
+                    res = json.loads(out.stdout.strip().splitlines()[-1])
+                    tmp = cache + f'.{os.getpid()}'
+                    json.dump(res, open(tmp, 'w'))
+                    os.replace(tmp, cache)
+                except Exception:
+                    err = (out.stderr or out.stdout)[-400:]
+        finally:
+            try:
+                fcntl.flock(lock, fcntl.LOCK_UN)
+            except OSError:
+                pass
+    if res is None:
+        U.direct('cover', 'axioms-hold-in-the-standard-model', 'vacuous', 'spot check did not run: ' + err,
                  'lemmas/spotcheck.py', backend='numpy-spotcheck')
         return
     bad = [r for r in res if r[1] == 'FALSIFIED']
     unex = [r for r in res if r[1] in ('unexercised', 'skipped')]
     U.direct('cover', 'axioms-hold-in-the-standard-model', 'ok' if not bad else 'vacuous',
-             f'{len(res) - len(bad) - len(unex)} axioms exercised and true, {len(unex)} not exercised' if not bad else
+             f'{len(res) - len(bad) - len(unex)} axioms exercised and true, {len(unex)} not exercised' + reused if not bad else
              'FALSIFIED in the standard model: ' + '; '.join(f'{r[0]} {r[2][:200]}' for r in bad), 'ttvc/theory.py', backend='numpy-spotcheck')
-    U.add_meta(models_used=[f'standard-model spot check of {len(res)} theory axioms on random small instances (bounded)'])
+    U.add_meta(models_used=[f'standard-model spot check of {len(res)} theory axioms on random small instances (bounded)' + reused])
